@@ -2,6 +2,7 @@
 //! properties: C15
 //! note: PeerManager::do_read_event, the function-local macro try_potential_handleerror!: what each ErrorAction a handler (or the transport) answers with does to the connection - DisconnectPeer and DisconnectPeerWithWarning drop it at once (nothing is queued: the read path never writes), the Ignore* actions and the Send* actions keep reading, and the Send* actions queue exactly the error / warning message they carry; together with u15 / u15c (every decryption or handshake failure answers DisconnectPeer) this is the sentence "any corrupted, truncated or unauthenticated byte causes the connection to be dropped"
 //! trusted: R15 (deep slice of a function-local macro_rules body; R18: `$peer` is the identifier m_peer bound as a parameter): the `match e.action { .. }` verbatim as a function of the action; `continue` (next iteration of the read loop) is the return value ReadOn, `return Err(PeerHandleError {})` leaves the function as in the source; enqueue_message is a recorder; ErrorAction is extracted (logger::Level, ErrorMessage, WarningMessage opaque); log statements dropped (R3)
+//! trusted: R15 (deep slice): process_events: the `match action { .. }` of the arm MessageSendEvent::HandleError verbatim as a function of the action (peers_to_disconnect is a map stub, the function-local macro enqueue_message_to! is the recorder Sender::enqueue_to; R9: the closure mapping the optional error message gets its types; logs dropped)
 //! trusted: assume_specification for core::cmp::max / core::cmp::min (std definitions): present in every unit so that a change that introduces them is verified instead of being rejected by the tool
 use vstd::prelude::*;
 verus! {
@@ -54,5 +55,52 @@ impl PeerManager {
     let msg = Message::Error(msg);
 //@end
 }
+// ---- PeerManager::process_events, MessageSendEvent::HandleError: what an error action a handler queued does ----
+#[derive(Clone, Copy)] pub struct PublicKey { pub id: u64 }
+pub struct DisconnectMap { pub m: Ghost<Map<PublicKey, Option<Message>>> }
+impl DisconnectMap {
+    #[verifier::external_body] pub fn insert(&mut self, k: PublicKey, v: (Option<Message>, &'static str)) -> (r: Option<(Option<Message>, &'static str)>)
+        ensures final(self).m@ == old(self).m@.insert(k, v.0) { unimplemented!() }
+}
+pub struct Sender { pub sent: Ghost<Seq<(PublicKey, Message)>> }
+impl Sender {
+    // the function-local macro enqueue_message_to!: queue the message for that peer (an unknown peer is skipped: Ok as well)
+    #[verifier::external_body] pub fn enqueue_to(&mut self, node_id: &PublicKey, msg: Message) -> (r: Result<(), ()>)
+        ensures r is Ok ==> final(self).sent@ == old(self).sent@.push((*node_id, msg)), r is Err ==> final(self).sent@ == old(self).sent@ { unimplemented!() }
+}
+pub open spec fn as_error(m: Option<ErrorMessage>) -> Option<Message> { match m { Some(e) => Some(Message::Error(e)), None => None } }
+//@extract lightning/src/ln/peer_handler.rs :: impl PeerManager :: fn process_events
+//@strip msgs
+//@slice R15
+    MessageSendEvent::HandleError { node_id, action } => { $lg:any match action { $arms:any } }, MessageSendEvent::SendChannelRangeQuery
+//@with
+    fn do_what_a_queued_error_action_says(sender: &mut Sender, peers_to_disconnect: &mut DisconnectMap, node_id: PublicKey, action: ErrorAction) -> Result<(), ()> { match action { $arms } Ok(()) }
+//@rw R5 *
+    enqueue_message_to!(&node_id, msg)?;
+//@with
+    sender.enqueue_to(&node_id, msg)?;
+//@rw R9
+    msg.map(|msg| Message::<CMH::CustomMessage>::Error(msg))
+//@with
+    msg.map(|msg: ErrorMessage| -> (o: Message) ensures o == Message::Error(msg) { Message::Error(msg) })
+//@rw R16 ?
+    ErrorAction::SendWarningMessage { msg, ref log_level }
+//@with
+    ErrorAction::SendWarningMessage { msg, log_level }
+//@rw R8 ?
+    if let Some(msg) = msg.as_ref() { } else { }
+//@with
+//@ret r
+//@ensures P C15 a-queued-error-action-that-asks-for-the-connection-to-be-dropped-marks-the-peer-for-disconnection-with-the-message-it-carries-and-the-others-send-their-message-or-nothing
+    action matches ErrorAction::DisconnectPeer { msg } ==> r is Ok && final(peers_to_disconnect).m@ == old(peers_to_disconnect).m@.insert(node_id, as_error(msg)) && final(sender).sent@ == old(sender).sent@,
+    action matches ErrorAction::DisconnectPeerWithWarning { msg } ==> r is Ok && final(peers_to_disconnect).m@ == old(peers_to_disconnect).m@.insert(node_id, Some(Message::Warning(msg))) && final(sender).sent@ == old(sender).sent@,
+    (action is IgnoreError || action is IgnoreAndLog || action is IgnoreDuplicateGossip) ==> r is Ok && final(peers_to_disconnect).m@ == old(peers_to_disconnect).m@ && final(sender).sent@ == old(sender).sent@,
+    action matches ErrorAction::SendErrorMessage { msg } ==> final(peers_to_disconnect).m@ == old(peers_to_disconnect).m@ && (r is Ok ==> final(sender).sent@ == old(sender).sent@.push((node_id, Message::Error(msg)))),
+    action matches ErrorAction::SendWarningMessage { msg, .. } ==> final(peers_to_disconnect).m@ == old(peers_to_disconnect).m@ && (r is Ok ==> final(sender).sent@ == old(sender).sent@.push((node_id, Message::Warning(msg)))),
+//@mutant disconnect_with_warning_only_sends_the_warning
+    peers_to_disconnect.insert( node_id, ( Some(Message::Warning(msg)), "DisconnectPeerWithWarning HandleError", ), );
+//@with
+    enqueue_message_to!(&node_id, Message::Warning(msg))?;
+//@end
 }
 fn main() {}
